@@ -9,7 +9,9 @@ FIRST = {  # first result before the check was strengthened (caught unless liste
 # second round (seeds _4.._6, written by fresh agents told to avoid the first round's areas): caught at first run -
 ROUND2_CAUGHT = {"C10_4", "C09_4", "C02_5", "C02_6", "C01_4", "C07_4", "C03_4", "C03_6", "C08_5", "C08_6", "C16_6", "C20_4", "C20_5", "C15_4", "C14_4", "C14_6",
                  "C12_4", "C12_5", "C19_4", "C19_5", "C19_6", "C13_4", "C11_5", "C11_6"}
-ROUND3_CAUGHT = {"C02_9", "C10_7", "C09_7", "C09_9", "C04_7", "C04_9", "C08_8", "C08_9", "C03_7", "C03_8", "C03_9", "C05_7", "C05_8", "C05_9"}
+ROUND3_CAUGHT = {"C02_9", "C10_7", "C09_7", "C09_9", "C04_7", "C04_9", "C08_8", "C08_9", "C03_7", "C03_8", "C03_9", "C05_7", "C05_8", "C05_9",
+                 "C11_7", "C11_8", "C11_9", "C12_7", "C12_8", "C12_9", "C13_7", "C13_8", "C13_9", "C14_9", "C15_8", "C16_7", "C16_8", "C17_7", "C17_9",
+                 "C18_7", "C18_8", "C19_8", "C20_7", "C20_8", "C20_9"}
 ROUND2_CAUGHT |= ROUND3_CAUGHT
 for _p in range(1, 21):
     for _i in (4, 5, 6, 7, 8, 9):
